@@ -42,6 +42,9 @@ func newEnv() *env {
 	for _, x := range eoas {
 		e.fixed[x] = true
 	}
+	for i := 1; i <= 18; i++ {
+		e.fixed[precompileAddr(i)] = true
+	}
 	return e
 }
 
@@ -243,6 +246,11 @@ func (e *env) compareState() []string {
 		}
 		if got := e.st.GetCode(x); !bytes.Equal(got, wantCode) {
 			d = append(d, fmt.Sprintf("code of %s = %d bytes %x..., expected %d bytes %x...", name, len(got), head(got, 24), len(wantCode), head(wantCode, 24)))
+		}
+		if isPrecompileAddr(x) {
+			if got := e.st.Exist(x); got != a.object {
+				d = append(d, fmt.Sprintf("account object of precompile %s exists=%v, expected %v", name, got, a.object))
+			}
 		}
 		if _, isCreated := e.createdSet()[x]; isCreated {
 			if got, want := e.st.Exist(x), a.nonce > 0; got != want {
